@@ -2,15 +2,18 @@
 use crate::core::Case;
 use crate::imp::hex;
 use crate::prog::Walk;
-use crate::refint::{compile, gen_program, run, Program, E, S};
+use crate::refint::{compile, fixed_programs, gen_program, run, Program, E, S};
 use crate::rng::Rng;
 
 pub fn cases(rng: &mut Rng, tier: &str) -> (Vec<Case>, bool) {
     let n = if tier == "thorough" { 8000 } else { 700 };
     let mut cases = vec![];
-    for i in 0..n {
+    let fixed = fixed_programs();
+    for i in 0..n + fixed.len() {
         let allow_else_resume = i % 25 == 0;
-        let (prog, feats) = if i % 12 == 5 { (array_fill_program(rng), vec!["array-fill"]) } else { gen_program(rng, allow_else_resume) };
+        let (prog, feats) = if i >= n {
+            fixed[i - n].clone()
+        } else if i % 12 == 5 { (array_fill_program(rng), vec!["array-fill"]) } else { gen_program(rng, allow_else_resume) };
         let seed = rng.next() % 100000;
         let text = compile(&prog);
         let expected = run(&prog, seed, 2000);
